@@ -10,6 +10,7 @@ FAMILIES = {
     "flowBc": {"quick": 200, "thorough": 4000},  # scripted server drives the real client's send windows (0, negative, up)
     "capRace": {"quick": 200, "thorough": 4000},   # competition for the connection window, then one competitor goes away
     "ctlB": {"quick": 200, "thorough": 4000},      # SETTINGS / PING bursts while the endpoint is blocked mid-frame
+    "concBc": {"quick": 200, "thorough": 4000},    # peer changes MAX_CONCURRENT_STREAMS while streams are open
     "conformSend": {"quick": 40, "thorough": 1500},  # TLC simulation runs of MC_Send (x ~3 behaviours each) replayed on the real client
 }
 
@@ -17,7 +18,7 @@ SEND_SLICE = {"module": "MC_Send", "cfg_quick": "MC_Send_quick.cfg", "cfg_thorou
               "constants": "2 streams, IW=2 CW=3 MF=2 units, sends {3}, WU {2}, SETTINGS {0,3}, reserve {2}, 1 reset; every interleaving with a frame parked in the codec",
               "timeout_thorough": 2400, "coverage": False}
 
-WIRE_AB = ["mixA", "mixAd", "bpReset", "flowBs", "flowBc", "capRace", "ctlB"]
+WIRE_AB = ["mixA", "mixAd", "bpReset", "flowBs", "flowBc", "capRace", "ctlB", "concBc"]
 
 PLAN = {
     "C01": {"rules": ["C01."], "families": WIRE_AB, "slices": [], "level": "exploration",
